@@ -1,125 +1,42 @@
 /-
-  C12 — open findings: the full-strength statements of `Vgw/Props/C12.lean` are FALSE on the
-  unchanged tree.  Each refutation is a concrete tiny stream + fragmentation evaluated on the model
-  by the kernel (`decide`), with a toy hash family (the statements quantify over all hash families,
-  so one instance suffices; the harness replays the same shapes on the real readers with real
-  SHA-256/HMAC/CRC32 — `c12Corpus` in harness/cmd/vharness/c12.go).
+  C12 — what is left open after /repo commit cf70120.
 
-  known_findings.json signatures:
-    signed:cut-inside-nonfirst-header   `signed_header_split_rejects_valid`
-    signed:wrong-payload-accepted       `signed_header_split_wrong_payload`
-    signed:truncated-accepted           `signed_accepts_empty_stream`, `signed_accepts_truncated`
-    unsigned:truncated-after-size-line  `unsigned_accepts_truncated`
-    *:panic:*                           `signed_negative_size_panics`, `unsigned_negative_size_panics`
+  No violation of the property remains: `Props.C12.decode_complete` holds at full strength, the
+  harness finds no stream / fragmentation on which the readers deviate from `Spec.Chunked`.
+  (The defects recorded before cf70120 — header split across reads mis-parsed, bare io.EOF handed
+  through, negative / oversized chunk sizes panicking — are `fixed:` lines in known_findings.json.)
+
+  This file keeps the two places where the THEOREMS carry a side condition, with kernel-evaluated
+  witnesses that the side condition is not an artefact.  Neither is a violation of C12: the first
+  concerns streams outside `Spec.Chunked.Valid` (a chunk size spelled with more than 1000 leading
+  zeros — a grey zone of the Spec), the second only the KIND of error with which an invalid stream
+  is refused.
 -/
 import Vgw.Props.C12
 namespace Vgw.Open.C12
 open Vgw Vgw.Spec.Chunked Vgw.Model Vgw.Props.C12
-open Vgw.Lemmas.ChunkSigned (signedCfg SignedHyps variantOf)
-open Vgw.Lemmas.ChunkUnsigned (ucfg UnsignedHyps)
+open Vgw.Lemmas.ChunkSigned (signedCfg)
 
-/-- the final chunk header of `s1` starts (with its CRLF) at offset 23; cut it at 30 -/
-def ds1 : List (Bytes × Bool) := [(s1.take 30, false), (s1.drop 30, false)]
+/-- "000…01;chunk-signature=01 CRLF A CRLF 0;chunk-signature=01 CRLF CRLF" with 1100 leading zeros -/
+def long : Bytes := List.replicate 1100 48 ++ s1
 
-theorem ds1_partition : Partition s1 ds1 := by decide
+set_option maxRecDepth 100000 in
+/-- **The 1024-byte stash limit is real** (side condition `StashOK` of
+`signed_fragmentation_independent`): a stream whose first chunk size is spelled with 1100 leading
+zeros is decoded when it arrives in one read and refused (errInvalidChunkFormat) when its first
+1030 bytes arrive on their own.  Harness: malformation class `leading-zeros-1100` (grey). -/
+theorem stash_limit_matters :
+    ChunkSigned.run (signedCfg toy false 0) toy.seedSig [(long, false)] = ([65], .eof) ∧
+    ChunkSigned.run (signedCfg toy false 0) toy.seedSig [(long.take 1030, false), (long.drop 1030, false)] =
+      ([], .err .invalidFormat) := by
+  constructor <;> decide
 
-/-- **signed:cut-inside-nonfirst-header** — a valid stream whose final chunk header is split across
-two reads is rejected (errMalformedEncoding: the stash holds two stale bytes). -/
-theorem signed_header_split_rejects_valid :
-    ChunkSigned.run (signedCfg toy false 0) toy.seedSig ds1 = ([65], .err .malformed) := by decide
-
-theorem not_decode_complete_full : ¬ decode_complete_full := by
-  intro h
-  have := h.1 toy false 0 toy_signed_hyps s1 [65] s1_valid ds1 ds1_partition
-  rw [signed_header_split_rejects_valid] at this
-  exact absurd this (by decide)
-
-/-- payload "A" ++ sixteen "B" in two chunks (sizes 1 and 0x10) -/
-def s2 : Bytes :=
-  [49] ++ sigIntro ++ [48, 49] ++ [13, 10] ++ [65] ++ [13, 10] ++
-  [49, 48] ++ sigIntro ++ [48, 49] ++ [13, 10] ++ List.replicate 16 66 ++ [13, 10] ++
-  [48] ++ sigIntro ++ [48, 49] ++ [13, 10] ++ [13, 10]
-
-theorem s2_valid : Valid toy (variantOf false) s2 (65 :: List.replicate 16 66) :=
-  ⟨[([49], [65]), ([49, 48], List.replicate 16 66)], [48], ⟨by decide, by decide, by decide⟩, by decide, by decide⟩
-
-/-- cut right behind `CRLF 10` of the second header: the stash becomes "1010", the size is read as
-0x1010, everything up to the end of the stream is taken for chunk data and the underlying EOF is
-handed through. -/
-def ds2 : List (Bytes × Bool) := [(s2.take 27, false), (s2.drop 27, false)]
-
-/-- **signed:wrong-payload-accepted** — a valid stream, split inside the second chunk header, is
-decoded "successfully" into a different object (chunk framing bytes end up in the payload). -/
-theorem signed_header_split_wrong_payload :
-    (ChunkSigned.run (signedCfg toy false 0) toy.seedSig ds2).2 = .eof ∧
-    (ChunkSigned.run (signedCfg toy false 0) toy.seedSig ds2).1 ≠ 65 :: List.replicate 16 66 := by decide
-
-/-- **signed:truncated-accepted** (extreme case) — the empty stream is accepted as the empty object. -/
-theorem signed_accepts_empty_stream :
-    ChunkSigned.run (signedCfg toy false 0) toy.seedSig [] = ([], .eof) := by decide
-
-/-- **signed:truncated-accepted** — `s2` cut in the middle of the second chunk's data is accepted as
-a shorter object; the data of the cut chunk is never authenticated. -/
-theorem signed_accepts_truncated :
-    ChunkSigned.run (signedCfg toy false 0) toy.seedSig [(s2.take 53, true)] = (65 :: List.replicate 5 66, .eof) := by
-  decide
-
-theorem not_valid_nil (P : Params) (v : Variant) (p : Bytes) : ¬ Valid P v [] p := by
-  rintro ⟨cs, hz, hwf, hs, _⟩
-  have h1 := Lemmas.ChunkSigned.renderSigned_length P false cs P.seedSig [] hz
-  have h2 := Lemmas.ChunkSigned.renderSigned_length P true cs P.seedSig [] hz
-  have h3 := Lemmas.ChunkUnsigned.renderUnsigned_length P cs [] hz
-  have hl := congrArg List.length hs
-  cases v <;> simp only [render, List.length_nil] at hl <;> omega
-
-/-- `2 CRLF AB CRLF 1 CRLF` — an unsigned stream that ends right after the second chunk-size line -/
-def u1 : Bytes := [50, 13, 10, 65, 66, 13, 10, 49, 13, 10]
-
-/-- **unsigned:truncated-after-size-line** — `u1` read with one-byte buffers is accepted as the object
-"A": `io.ReadFull` reads nothing and returns io.EOF, which `Read` hands through — dropping the "B"
-it had just taken from its stash into the caller's buffer. -/
-theorem unsigned_accepts_truncated :
-    ChunkUnsigned.run (ucfg toy) [u1] (fun _ => 1) = ([65], .eof) := by decide
-
-theorem u1_not_valid (p : Bytes) : ¬ Valid toy .unsignedTrailer u1 p := by
-  rintro ⟨cs, hz, hwf, hs, _⟩
-  -- every valid unsigned stream ends in CRLF CRLF; u1 ends in "1 CRLF"
-  have key : ∀ (cs : List Chunk) (acc : Bytes), ∃ pre, renderUnsigned toy acc cs hz = pre ++ [13, 10, 13, 10] := by
-    intro cs
-    induction cs with
-    | nil => intro acc; exact ⟨hz ++ crlf ++ toy.trailerName ++ [58] ++ checksumB64 toy acc, by simp [renderUnsigned, crlf]⟩
-    | cons c cs ih =>
-      intro acc
-      obtain ⟨pre, h⟩ := ih (acc ++ c.2)
-      exact ⟨c.1 ++ crlf ++ c.2 ++ crlf ++ pre, by simp [renderUnsigned, h]⟩
-  obtain ⟨pre, h⟩ := key cs []
-  simp only [render] at hs
-  rw [h] at hs
-  have := congrArg (fun l => l.reverse.take 4) hs
-  simp [u1] at this
-
-theorem not_decode_sound_full : ¬ decode_sound_full := by
-  intro h
-  have := h.1 toy false 0 toy_signed_hyps [] [] [] (by decide) signed_accepts_empty_stream
-  exact not_valid_nil _ _ _ this
-
-/-- the unsigned half of `decode_sound_full` fails on its own as well -/
-theorem not_decode_sound_unsigned :
-    ¬ (∀ (P : Params), UnsignedHyps P → ∀ s p (frags : List Bytes) (caps : Nat → Nat), frags.flatten = s →
-      (∀ i, 0 < caps i) → ChunkUnsigned.run (ucfg P) frags caps = (p, .eof) → Valid P .unsignedTrailer s p) := by
-  intro h
-  exact u1_not_valid _ (h toy toy_unsigned_hyps u1 [65] [u1] (fun _ => 1) (by decide) (by intro _; decide)
-    unsigned_accepts_truncated)
-
-/-! ### panics (the readers crash instead of rejecting; reachable from the wire) -/
-
-/-- **signed:panic:negative-slice-bound** — `-1;chunk-signature=01 CRLF …`: `p[:chunkSize]` with a
-negative chunk size. -/
-theorem signed_negative_size_panics :
-    (ChunkSigned.run (signedCfg toy false 0) toy.seedSig [(45 :: s1, false)]).2 = .panic := by decide
-
-/-- **unsigned:panic:makeslice-len-out-of-range** — `-1 CRLF …`: `make([]byte, chunkSize)` -/
-theorem unsigned_negative_size_panics :
-    (ChunkUnsigned.run (ucfg toy) [45 :: u1] (fun _ => 1)).2 = .panic := by decide
+/-- **The error KIND depends on how io.EOF arrives**: a stream cut inside a chunk header is refused
+with errInvalidChunkFormat when io.EOF comes with the last bytes and with io.ErrUnexpectedEOF when
+it comes on its own — refused either way. -/
+theorem eof_mode_changes_error_kind :
+    ChunkSigned.run (signedCfg toy false 0) toy.seedSig [(s1.take 30, true)] = ([65], .err .invalidFormat) ∧
+    ChunkSigned.run (signedCfg toy false 0) toy.seedSig [(s1.take 30, false)] = ([65], .err .unexpectedEOF) := by
+  constructor <;> decide
 
 end Vgw.Open.C12
